@@ -249,7 +249,62 @@ def cross_on(env, inp):
     return None
 
 
-CHECKS = {'law': check_law, 'bool': check_bool, 'cross': check_cross}
+def apply_edit(env, ed):
+    """The CALLER edits its structure object through the public API between questions:
+    ['label', s, atom] toggles an atom in labels(s); ['relabel'] swaps p and q everywhere through
+    replace_labelling_function; ['edge', a, b] adds a transition that is not there yet."""
+    K = env.K
+    n = K['n']
+    nm = graphs.NAMINGS[env.naming]
+    labels = [list(l) for l in K['labels']]
+    edges = [list(e) for e in K['edges']]
+    if ed[0] == 'label':
+        s_, a = ed[1] % n, ed[2]
+        cur = env.kripke.labels(nm(s_))
+        if a in cur:
+            cur.discard(a)
+            labels[s_] = [x for x in labels[s_] if x != a]
+        else:
+            cur.add(a)
+            labels[s_] = sorted(labels[s_] + [a])
+    elif ed[0] == 'relabel':
+        sw = {'p': 'q', 'q': 'p'}
+        labels = [sorted(sw.get(x, x) for x in l) for l in labels]
+        env.kripke.replace_labelling_function(dict((nm(i), set(labels[i])) for i in range(n)))
+    elif ed[0] == 'edge':
+        a, b = ed[1] % n, ed[2] % n
+        if [a, b] not in edges:
+            env.kripke.add_edge(nm(a), nm(b))
+            edges = sorted(edges + [[a, b]])
+    else:
+        raise core.HarnessError('unknown edit %r' % (ed,))
+    env.K = dict(K, labels=labels, edges=edges)
+    env.cache = {}
+
+
+def check_cross_edit(inp):
+    """The checkers agree on f, the caller edits the structure object, they are asked again (f and, if
+    given, f2): every entry point must again give one and the same set - for the structure as it is now."""
+    env = Env(inp['K'], inp.get('naming', 'int'), inp.get('how', 0))
+    r = cross_on(env, inp)
+    if r is not None:
+        return r
+    for k, ed in enumerate(inp['edits']):
+        try:
+            apply_edit(env, ed)
+        except core.HarnessError:
+            raise
+        except Exception as e:
+            return Failure('cross_edit', inp, 'the edit %r succeeds' % (ed,), 'raised %s: %s' % (type(e).__name__, e))
+        for f in [inp['f']] + ([inp['f2']] if inp.get('f2') else []):
+            r = cross_on(env, dict(inp, f=f))
+            if r is not None:
+                return Failure('cross_edit', inp, r.expected, r.actual,
+                               'after edit %d %r, formula %s on %r: %s' % (k, ed, fm.to_text(fm.from_json(f)), env.K, r.note))
+    return None
+
+
+CHECKS = {'law': check_law, 'bool': check_bool, 'cross': check_cross, 'cross_edit': check_cross_edit}
 
 
 def replay(ctx, rec):
@@ -363,7 +418,7 @@ def random_shard(st, shard, nshards, payload):
     @hs.composite
     def cases(draw):
         K = draw(km.st_kripke(1, 5))
-        kind = draw(hs.sampled_from(['law', 'law', 'bool', 'cross']))
+        kind = draw(hs.sampled_from(['law', 'law', 'bool', 'cross', 'cross_edit']))
         base = {'K': K, 'naming': draw(hs.sampled_from(NAMINGS)), 'how': draw(hs.integers(0, 5)), 'kind': kind}
         if kind == 'law':
             name = draw(hs.sampled_from(names))
@@ -380,6 +435,15 @@ def random_shard(st, shard, nshards, payload):
                    'LTL': fm.st_formula('ltl_path', max_depth=2, max_temporal=1),
                    'STAR': fm.st_formula('ctls_state', max_depth=3, max_temporal=2)}[fam]
             base.update(family=fam, f=draw(sub), g=draw(sub))
+        elif kind == 'cross_edit':
+            sh = shared_fragment()
+            base['f'] = sh[draw(hs.integers(0, len(sh) - 1))]
+            if draw(hs.booleans()):
+                base['f2'] = sh[draw(hs.integers(0, len(sh) - 1))]
+            ed = hs.one_of(hs.tuples(hs.just('label'), hs.integers(0, 4), hs.sampled_from(['p', 'q'])).map(list),
+                           hs.just(['relabel']),
+                           hs.tuples(hs.just('edge'), hs.integers(0, 4), hs.integers(0, 4)).map(list))
+            base['edits'] = draw(hs.lists(ed, min_size=1, max_size=3))
         else:
             which = draw(hs.sampled_from(['ctl', 'ltl', 'both']))
             if which == 'ctl':
@@ -399,6 +463,8 @@ def random_shard(st, shard, nshards, payload):
             f = law_on(env, inp)
         elif kind == 'bool':
             f = bool_on(env, inp)
+        elif kind == 'cross_edit':
+            f = check_cross_edit(inp)
         else:
             f = cross_on(env, inp)
         nt = any(v[0] == 'set' and v[1] not in (0, env.full) for v in env.cache.values())
@@ -415,6 +481,37 @@ def random_shard(st, shard, nshards, payload):
         st.failure = f
 
 
+EDIT_SCRIPTS = [[['label', 0, 'p']], [['label', 1, 'q'], ['label', 0, 'p']], [['relabel']], [['edge', 0, 1]],
+                [['edge', 1, 0], ['label', 1, 'p']], [['label', 0, 'q'], ['relabel'], ['edge', 1, 1]]]
+
+
+def edit_shard(st, shard, nshards, payload):
+    """Systematic: ask, let the caller edit the structure object, ask again (shared fragment, all checkers)."""
+    sh = shared_fragment()
+    i = -1
+    for n in payload['ns']:
+        for j, K in enumerate(km.scope(n)):
+            if j % payload['k_stride']:
+                continue
+            for fi, f in enumerate(sh):
+                for ei, script in enumerate(EDIT_SCRIPTS):
+                    i += 1
+                    if i % nshards != shard or (fi + ei + j) % payload['f_stride']:
+                        continue
+                    inp = {'K': K, 'f': f, 'f2': sh[(fi * 7 + ei) % len(sh)], 'edits': script,
+                           'naming': NAMINGS[j % len(NAMINGS)], 'how': j % 6}
+                    st.evaluations += 1
+                    st.nontrivial += 1
+                    st.bump('cross_edit: %s' % '+'.join(e[0] for e in script))
+                    if i % 1999 == 0:
+                        st.sample(inp, cls='cross_edit-n%d' % n)
+                    r = check_cross_edit(inp)
+                    if r is not None:
+                        if st.failure is None:
+                            st.failure = r
+                        return
+
+
 def run(ctx):
     ctx.rule = ('differential and metamorphic only.  cross: every formula that is a state formula of '
                 'several logics is given to each of their checkers as own-language object, CTL* '
@@ -425,7 +522,9 @@ def run(ctx):
                 'fixpoint expansions (E/A x F,G,U,R), CTL* A g = not E not g for arbitrary path g, LTL '
                 'expansions of G,F,U,R, double negation, F as U, G as R; each law is evaluated by '
                 'every checker of its family and both sides must give equal sets.  Structures: S(1), '
-                'S(2) exhaustively (strided in the quick tier), S(3) strided, random <= 5 states.  '
+                'S(2) exhaustively (strided in the quick tier), S(3) strided, random <= 5 states.  cross_edit: the caller edits the '
+                'structure OBJECT between questions (labels toggled in place, replace_labelling_function, add_edge) and all entry points '
+                'must again agree, for the structure as it is now.  '
                 'evaluations = law instances checked; distinct_nontrivial = modelcheck answers that '
                 'were proper non-empty subsets of the states inside those instances (cache entries, '
                 'distinct by construction per structure).')
@@ -460,6 +559,12 @@ def run(ctx):
             f = core.run_sharded(ctx, enum_shard, {'ns': [n_], 'k_stride': stride_, 'shared_only': True})
             if f is not None:
                 break
+    if f is None:
+        ep = {'ns': [1, 2], 'k_stride': ctx.pick(5, 1), 'f_stride': ctx.pick(5, 2)}
+        ctx.scopes.append('cross_edit: S(1) + every %s of S(2) x shared-fragment formulas x 6 edit scripts (labels toggled in place, '
+                          'replace_labelling_function, add_edge), every %s combination: all checkers asked before and after each edit of the SAME structure object'
+                          % (('%dth' % ep['k_stride']) if ep['k_stride'] > 1 else 'one', ('%dth' % ep['f_stride'])))
+        f = core.run_sharded(ctx, edit_shard, ep)
     if f is not None:
         ctx.violation(f)
         return
